@@ -51,6 +51,17 @@ type GVal struct {
 	F    zoo.Inner
 	A, B *GVal
 }
+type GHead struct {
+	F    zoo.Inner // a by-value struct as the first field: same address as the node itself
+	Id   int32
+	A, B *GHead
+}
+type GLeaf struct {
+	Id   int32
+	F    *zoo.Inner // leaf object without links, possibly shared by several nodes
+	G    *zoo.Inner
+	A, B *GLeaf
+}
 type GMid struct {
 	Id int32
 	A  *GMid
@@ -67,6 +78,9 @@ type GLM struct {
 	M2 map[string]*GLM
 	A  *GLM
 }
+
+// sharedLeaf is re-created for every graph (see buildGraph).
+var sharedLeaf *zoo.Inner
 
 type filler struct {
 	name string
@@ -104,6 +118,13 @@ func fillers() []filler {
 		}},
 		{"Inner by value", reflect.TypeOf(GVal{}), func(n reflect.Value, i int) {
 			n.Elem().FieldByName("F").Set(reflect.ValueOf(zoo.Inner{A: int32(i), S: "v"}))
+		}},
+		{"by-value struct as first field", reflect.TypeOf(GHead{}), func(n reflect.Value, i int) { n.Elem().FieldByName("F").Set(reflect.ValueOf(zoo.Inner{A: int32(i), S: "h"})) }},
+		{"one leaf object shared by all nodes", reflect.TypeOf(GLeaf{}), func(n reflect.Value, i int) {
+			n.Elem().FieldByName("F").Set(reflect.ValueOf(sharedLeaf))
+			if i%2 == 0 {
+				n.Elem().FieldByName("G").Set(reflect.ValueOf(sharedLeaf))
+			}
 		}},
 		{"mid: nil map, zero time, nil slice", reflect.TypeOf(GMid{}), func(reflect.Value, int) {}},
 		{"mid: empty map, time, empty slice", reflect.TypeOf(GMid{}), func(n reflect.Value, i int) {
@@ -158,6 +179,7 @@ func canonicalGraphs(n int, fn func(edges []int)) {
 }
 
 func buildGraph(f filler, n int, edges []int) (root interface{}, nodes []reflect.Value) {
+	sharedLeaf = &zoo.Inner{A: 77, S: "leaf"}
 	for i := 0; i < n; i++ {
 		p := reflect.New(f.typ)
 		p.Elem().FieldByName("Id").SetInt(int64(i + 1))
@@ -292,7 +314,12 @@ func graphCheckMaps(c *core.Ctx, root interface{}, desc, shape string, nilNames 
 	if !dv.IsValid() || dv.Type() != ov.Type() {
 		return rep("compare", "type", fmt.Sprintf("decoded %T, expected %T", dec.Val, root), "")
 	}
-	if r := pairWalk(ov, dv); r != "" {
+	r := pairWalk(ov, dv)
+	if r == "" {
+		// pointers to objects of other types (leaf objects without links) must keep their sharing too
+		r = NewPairing().Cmp(ov, dv, "$")
+	}
+	if r != "" {
 		kind := "mismatch"
 		msg := r
 		if i := len("$"); i > 0 {
@@ -393,7 +420,7 @@ func bigFamilies(n int) []struct {
 func init() {
 	core.Register(&core.Prop{
 		ID: "C04", Level: "model_checking",
-		Rule:        "Exhaustive enumeration of pointer graphs through the real codec: every assignment of every pointer slot (A,B of each node in {nil,n0..}) for n<=3 (quick; n=4 for 4 fillers) / n<=4 (thorough) nodes, one representative per rooted isomorphism class, for each of 19 filler configurations (nil/empty/non-empty map, zero/non-zero time, empty/non-empty string, nil/non-nil []byte, nil/empty/non-empty []int32, nil/non-nil *struct, struct by value, fillers between the pointer slots); node types with slice-of-pointer and map-of-pointer fields incl. the same slice header or map in two sibling fields (n<=2 quick, n<=3 thorough); rings, double rings, chains with back edges and trees with leaves pointing to the root for every n in 1..64 (quick) / 1..200 (thorough). Oracle: encode returns; R1 resolves every emitted reference (stream order) to the container standing for the same original object; in the decoded graph the pairing original pointer <-> decoded pointer built by a parallel walk is a bijection. Distinct by construction (canonical graph x filler).",
+		Rule:        "Exhaustive enumeration of pointer graphs through the real codec: every assignment of every pointer slot (A,B of each node in {nil,n0..}) for n<=3 (quick; n=4 for 4 fillers) / n<=4 (thorough) nodes, one representative per rooted isomorphism class, for each of 21 filler configurations (nil/empty/non-empty map, zero/non-zero time, empty/non-empty string, nil/non-nil []byte, nil/empty/non-empty []int32, nil/non-nil *struct, struct by value, fillers between the pointer slots); node types with slice-of-pointer and map-of-pointer fields incl. the same slice header or map in two sibling fields (n<=2 quick, n<=3 thorough); rings, double rings, chains with back edges and trees with leaves pointing to the root for every n in 1..64 (quick) / 1..200 (thorough). Oracle: encode returns; R1 resolves every emitted reference (stream order) to the container standing for the same original object; in the decoded graph the pairing original pointer <-> decoded pointer built by a parallel walk is a bijection. Distinct by construction (canonical graph x filler).",
 		Assumptions: []string{"sharing is required for pointers to structs; for slices and maps content and the identity of their pointer elements are compared", "random 200-node graphs of the property text are replaced by enumerated families"},
 		Units: func(tier string) []core.Unit {
 			var us []core.Unit
@@ -401,7 +428,7 @@ func init() {
 			for fi := range fl {
 				f := fl[fi]
 				maxN := 3
-				if tier == "thorough" || fi == 0 || fi == 1 || fi == 3 || fi == 4 || fi == 9 || fi == 14 || fi == 17 {
+				if tier == "thorough" || fi == 0 || fi == 1 || fi == 3 || fi == 4 || fi == 9 || fi == 14 || fi == 16 || fi == 17 {
 					maxN = 4
 				}
 				mn := maxN
